@@ -44,7 +44,7 @@ import re._parser as RP
 from ..consteval import eval_expr, const_value
 from ..model import AnchorError, norm, walk_no_nested, parent_map
 from ..regexlang import difference
-from ..util import cfg_of, call_attr, node_calls, local_single_defs, expand_local, enum_members, arg
+from ..util import cfg_of, call_attr, node_calls, local_single_defs, expand_local, enum_members, arg, norm_node
 
 EXPLANATION = __doc__
 REG = "openpectus.engine.internal_commands:InternalCommandsRegistry"
@@ -486,7 +486,7 @@ def run(ctx) -> None:
     defs = local_single_defs(vic)
     branches: dict[str, ast.If] = {}
     for n in walk_no_nested(vic.node):
-        if isinstance(n, ast.If) and isinstance(n.test, ast.Compare) and norm(n.test.left) == "node.instruction_name":
+        if isinstance(n, ast.If) and isinstance(n.test, ast.Compare) and norm_node(n.test.left, vic) == "node.instruction_name":
             r = norm(n.test.comparators[0])
             val = ice.get(r.split(".")[1]) if r.startswith("InterpreterCommandEnum.") else \
                 (n.test.comparators[0].value if isinstance(n.test.comparators[0], ast.Constant) else None)
@@ -523,13 +523,13 @@ def run(ctx) -> None:
                     guard = ("if", cur, None)
                     break
                 cur = pm.get(id(cur))
-            k = f"{k0}: {norm(rz)[:60]}"
+            k = f"{k0}: {norm_node(rz, vic)[:60]}"
             an_regex = pub.regex if pub.kind in ("regex", "noargs") else ""
             if guard is None:
                 raise AnchorError(f"{k}: unconditional raise in a command branch")
             if guard[0] == "except":
                 h, tr = guard[1], guard[2]
-                body_txt = " ".join(norm(s) for s in tr.body)
+                body_txt = " ".join(norm_node(s, vic) for s in tr.body)
                 if "int(node.arguments)" in body_txt and norm(h.type) == "ValueError":
                     w = included(an_regex, an_mode, INT_GRAMMAR, "full") if pub.kind == "regex" else ("", True, False)
                     if w is None:
@@ -550,7 +550,7 @@ def run(ctx) -> None:
                 if isinstance(d, ast.Call) and call_attr(d) in ("validate_w_groups", "validate") and isinstance(d.func, ast.Attribute):
                     sp = expand_local(d.func.value, defs)
                     a0 = arg(d, 0, "argument")
-                    if a0 is None or norm(a0) != "node.arguments":
+                    if a0 is None or norm_node(a0, vic) != "node.arguments":
                         raise AnchorError(f"{k}: validation of something else than node.arguments")
                     rs = _argspec_of(prog, pi.module, sp)
                     if rs.kind != "regex":
@@ -569,7 +569,7 @@ def run(ctx) -> None:
             # (2) membership in a collection
             if not handled:
                 mem = [x for x in ast.walk(test) if isinstance(x, ast.Compare) and isinstance(x.ops[0], ast.NotIn)
-                       and norm(x.left) == "node.arguments"]
+                       and norm_node(x.left, vic) == "node.arguments"]
                 if mem:
                     coll = expand_local(mem[0].comparators[0], defs)
                     ent = prog.resolve_expr_entity(pi.module, coll) if isinstance(coll, (ast.Name, ast.Attribute)) else None
@@ -683,14 +683,14 @@ def run(ctx) -> None:
         ctx.analysed(v)
         calls = [c for c in ast.walk(v.node) if isinstance(c, ast.Call) and call_attr(c) == "schedule_execution"]
         k = f"{vn}: schedule_execution(arguments=node.arguments)"
-        if calls and all(arg(c, 1, "arguments") is not None and norm(arg(c, 1, "arguments")) == "node.arguments" for c in calls):
+        if calls and all(arg(c, 1, "arguments") is not None and norm_node(arg(c, 1, "arguments"), v) == "node.arguments" for c in calls):
             ctx.ok("R20b", k)
         else:
             ctx.fail("R20b", v, v.node, k, "the run-time passes a different argument string than the one the analyzer validated")
     ccn = prog.func(f"{AN}:CommandCheckAnalyzer.check_command_node")
     ctx.analysed(ccn)
     k = "check_command_node validates node.arguments"
-    if any(isinstance(c, ast.Call) and call_attr(c) == "validate_args" and c.args and norm(c.args[0]) == "node.arguments"
+    if any(isinstance(c, ast.Call) and call_attr(c) == "validate_args" and c.args and norm_node(c.args[0], ccn) == "node.arguments"
            for c in ast.walk(ccn.node)):
         ctx.ok("R20b", k)
     else:
@@ -760,7 +760,7 @@ def run(ctx) -> None:
                 return "TAG"
         if isinstance(e, ast.Attribute) and e.attr == "tag_unit":
             b = expand_local(e.value, d)
-            if norm(b) == "node.tag_operator_value":
+            if norm_node(b, ec) == "node.tag_operator_value":
                 return "COND"
         return None
 
@@ -914,9 +914,9 @@ def run(ctx) -> None:
                 parts.append(cur.attr)
                 cur = cur.value
             if isinstance(cur, ast.Name) and cur.id in d3:
-                root = norm(expand_local(cur, d3))
+                root = norm_node(expand_local(cur, d3), m)
             else:
-                root = norm(cur)
+                root = norm_node(cur, m)
             path = ".".join([root] + list(reversed(parts)))
             if not path.startswith("node."):
                 continue
@@ -943,7 +943,7 @@ def run(ctx) -> None:
             cands = [vm]
             for cc in walk_no_nested(vm.node):
                 if isinstance(cc, ast.Call) and isinstance(cc.func, ast.Attribute) and norm(cc.func.value) == "self" \
-                        and cc.args and norm(cc.args[0]) == "node":
+                        and cc.args and norm_node(cc.args[0], vm) == "node":
                     t = acls.find_method(cc.func.attr)
                     if t is not None:
                         cands.append(t)
@@ -973,7 +973,7 @@ def run(ctx) -> None:
                     while isinstance(cur2, ast.Attribute):
                         parts2.append(cur2.attr)
                         cur2 = cur2.value
-                    root2 = norm(expand_local(cur2, d4)) if isinstance(cur2, ast.Name) else norm(cur2)
+                    root2 = norm_node(expand_local(cur2, d4), cf) if isinstance(cur2, ast.Name) else norm_node(cur2, cf)
                     apath = ".".join([root2] + list(reversed(parts2)) + list(reversed(parts)))
                     if apath != path:
                         continue
